@@ -118,7 +118,33 @@ def walks_from_graph(init, last, out, rng, nrandom, cap, max_cover=None):
 
 GEN = {  # cfg -> (n, virt)
     "GenSpy": (2, [2]), "GenPair": (2, []), "GenSpy2": (2, [2]), "GenPair2": (2, []), "GenTrio": (3, [3]),
+    "GenTrio3": (3, []),
 }
+
+
+def sim_walks(chk, work, cfg, num, depth):
+    """Random behaviours of CRDTGen from TLC's simulator (for graphs too large to dump)."""
+    import glob
+    import shutil
+    d = os.path.join(work, "sim-" + cfg)
+    shutil.rmtree(d, ignore_errors=True)
+    os.makedirs(d)
+    res = V.tlc(work, "CRDTGen", cfg=cfg + ".cfg", workers=1, timeout=2400, deadlock=False,
+                simulate="num=%d,file=%s" % (num, os.path.join("sim-" + cfg, "t")), depth=depth, seed=chk.seed)
+    chk.add_tlc("generator %s (TLC simulation, %d behaviours of depth <= %d)" % (cfg, num, depth), res)
+    if res.error or res.timed_out or res.violation:
+        raise V.Inconclusive("generator %s (simulation) failed: %s" % (cfg, res.error or res.violation or "timeout"))
+    walks, seen = [], set()
+    for f in sorted(glob.glob(os.path.join(d, "t_*"))):
+        c = ["".join(re.findall(r'[A-Za-z0-9]+', m)) for m in re.findall(r'^/\\ last = <<([^>]*)>>', open(f).read(), re.M)]
+        c = [x for x in c if x != "init"]
+        if c and tuple(c) not in seen:
+            seen.add(tuple(c))
+            walks.append(c)
+    shutil.rmtree(d, ignore_errors=True)
+    if not walks:
+        raise V.Inconclusive("generator %s (simulation) produced no behaviour" % cfg)
+    return walks
 
 # schedules that exhibited defects 10 / 11 of DESIGN section 8 on the pinned tree, and the race a
 # repair of 11 that only moves the arming into Commit leaves open (kept as regression cases)
@@ -155,8 +181,7 @@ def make_cases(chk, work, rng):
                     add("gated", k, n, virt, cmds, label)
                     cases[-1]["end"] = end
         plan = [("GenSpy", None, 30), ("GenPair", None, 30)] if quick else \
-               [("GenSpy", None, 100), ("GenPair", None, 100), ("GenSpy2", 1200, 300), ("GenPair2", 1200, 300),
-                ("GenTrio", 1200, 300)]
+               [("GenSpy", None, 100), ("GenPair", None, 100), ("GenSpy2", 1500, 300)]
         for cfg, max_cover, nrandom in plan:
             dot = cfg + ".dot"
             res = V.tlc(work, "CRDTGen", cfg=cfg + ".cfg", workers=4, timeout=2400, deadlock=False, dump=dot)
@@ -167,6 +192,14 @@ def make_cases(chk, work, rng):
             walks, nedges, ncov = walks_from_graph(init, last, out, rng, nrandom, cap=40 if quick else 60,
                                                    max_cover=max_cover)
             gen_stats[cfg] = {"states": len(last), "edges": nedges, "edges_covered_by_walks": ncov, "walks": len(walks)}
+            n, virt = GEN[cfg]
+            for w in walks:
+                add("gated", kinds[cid % 2], n, virt, w, cfg)
+        simplan = [("GenTrio", 16, 40), ("GenTrio3", 16, 40)] if quick else \
+                  [("GenPair2", 300, 70), ("GenTrio", 300, 70), ("GenTrio3", 300, 70)]
+        for cfg, num, depth in simplan:
+            walks = sim_walks(chk, work, cfg, num, depth)
+            gen_stats[cfg] = {"simulated_walks": len(walks), "depth": depth}
             n, virt = GEN[cfg]
             for w in walks:
                 add("gated", kinds[cid % 2], n, virt, w, cfg)
